@@ -575,7 +575,9 @@ class History(object):
             st = self.status()
             if hp.p_dup_report and self.finished and rng.random() < hp.p_dup_report:
                 key, was = rng.choice(self.finished)
-                self.report(key, "failed" if was == "succeeded" else "succeeded", rng.choice([7, "late"]))
+                # a late or duplicate report: the other status, or the same status with another result
+                self.report(key, ("failed" if was == "succeeded" else "succeeded") if rng.random() < 0.5 else was,
+                            rng.choice([7, "late", 1, 1]))
             if hp.p_rerun_any and st not in ("succeeded", "failed", "canceled") and rng.random() < hp.p_rerun_any:
                 self.play({"op": "rerun", "reqs": []})
             if hp.p_any_req and rng.random() < hp.p_any_req * (0.15 if st not in ("succeeded", "failed", "canceled") else 1.0):
@@ -605,8 +607,8 @@ class History(object):
                             self.play({"op": "persist"})
                 continue
             answerable = [x for x in self.parked if x[1] == "pending" and x[0][2] is None]
-            if answerable and st in ("paused", "pausing") and rng.random() < 0.5:
-                # an inquiry is answered while the workflow rests paused
+            if answerable and st in ("paused", "pausing", "canceled", "canceling") and rng.random() < 0.5:
+                # an inquiry is answered while the workflow rests paused (or after it was canceled)
                 x = rng.choice(answerable)
                 self.parked.remove(x)
                 failed = self.plan(x[0][0])
